@@ -20,7 +20,8 @@ MANIFEST = dict(
          'Tie: exact correspondence of every recorded call of the real method (slice calls and calls inside build()) with the '
          'model (script tables read from the builder, cross-checked against what the scenario put in), and collateral_ok '
          'evaluated in Coq on the CBOR body returned by build(), its premise "runs Plutus scripts" decided in Coq from the '
-         'redeemers of the witness set CBOR.',
+         'redeemers of the witness set CBOR; calls on a builder that was built or refused before (retry, session) included: '
+         'what this call does not set is absent from the body (defect C13-stale-return-of-earlier-build, repaired).',
     note='Trusted: Coq kernel+vm_compute; hand model Collateral.v tied by correspondence; max_tx_fee taken as datum from utils '
          '(C07); UTxO map functional; evaluate_tx answers within max_tx_ex_*; generator/driver. No axioms.',
     technique='Coq proof (induction over the candidate loop, Value content algebra) + slice and end-to-end correspondence',
